@@ -50,13 +50,17 @@ func (h *hPropDuties) ProposerDuties(_ context.Context, _ *api.ProposerDutiesOpt
 }
 
 type hAttester struct {
-	duties []*attester.Duty
-	fail   bool
-	result []*phase0.Attestation
+	duties   []*attester.Duty
+	fail     bool
+	result   []*phase0.Attestation
+	onAttest func() // something that happens while the attestation is being made
 }
 
 func (h *hAttester) Attest(_ context.Context, duty *attester.Duty) ([]*phase0.Attestation, error) {
 	h.duties = append(h.duties, duty)
+	if h.onAttest != nil {
+		h.onAttest()
+	}
 	if h.fail {
 		return nil, errors.New("mock attest failure")
 	}
@@ -340,7 +344,25 @@ func VerifC14_Aggregate() {
 		atts = append(atts, &phase0.Attestation{Data: &phase0.AttestationData{Slot: slot, Index: phase0.CommitteeIndex(c),
 			Source: &phase0.Checkpoint{}, Target: &phase0.Checkpoint{}}})
 	}
-	e.s.subscriptionInfos[epoch] = map[phase0.Slot]map[phase0.CommitteeIndex]*beaconcommitteesubscriber.Subscription{slot: infos}
+	// the subscription information of the epoch is stored before the attestation job
+	// starts, or while it is attesting (start-up, half-epoch preparation and reorg
+	// refresh store it from their own goroutines), possibly replacing older information
+	full := map[phase0.Slot]map[phase0.CommitteeIndex]*beaconcommitteesubscriber.Subscription{slot: infos}
+	switch vnd.Choose("info-stored", 3) {
+	case 0:
+		e.s.subscriptionInfos[epoch] = full
+	case 1:
+		e.att.onAttest = func() { e.s.subscriptionInfos[epoch] = full }
+	case 2:
+		stale := map[phase0.CommitteeIndex]*beaconcommitteesubscriber.Subscription{}
+		for c, si := range infos {
+			cp := *si
+			cp.IsAggregator = false
+			stale[c] = &cp
+		}
+		e.s.subscriptionInfos[epoch] = map[phase0.Slot]map[phase0.CommitteeIndex]*beaconcommitteesubscriber.Subscription{slot: stale}
+		e.att.onAttest = func() { e.s.subscriptionInfos[epoch] = full }
+	}
 	e.att.result = atts
 	e.s.pendingAttestations[slot] = true
 	duty, _ := attester.NewDuty(context.Background(), slot, 4, vals, nil, nil, nil)
